@@ -38,7 +38,7 @@ LEVEL_TEXT = (
     "the configured class' own decode (independently resolved from the class tree), and must be None in A, for invalid entries and on decode errors; "
     "no exception may escape GroupAddressDPT.set, the consumer task or the devices."
 )
-LEVEL_NOTE = "DPT classes' from_knx is trusted as 'what the configured type decodes' (their correctness is C07-C10); clocks read by BinarySensor / TravelCalculator are frozen so both instances see the same time."
+LEVEL_NOTE = "DPT classes' from_knx is trusted as 'what the configured type decodes' (their correctness is C07-C10); clocks read by BinarySensor / TravelCalculator are frozen and the loop is the virtual-time loop (device timers such as the 0.2 s colour debounce never fire during the stream), so both instances are processed identically regardless of machine load."
 ASSUMPTIONS = [
     "the accepted notations of a DPT in the table are those of DPTBase.parse_transcoder (int main number, 'main.sub' / value_type / 'DPT-n' strings, mapping with main / sub)",
     "expected class of a table entry is resolved from DPTBase.dpt_class_tree() by its numbers / value_type, not by calling parse_transcoder",
